@@ -468,3 +468,10 @@ Definition run_flat (c : world * fmt * nat) : list (list Z) :=
            universe;
        sortdedup (map Z.of_nat (ttouched t))]
   end.
+
+(* Hierarchy children: RTDC_Hierarchy delegates `basins`, `features_basin`
+   and `__contains__` to its parent and reads `hparent[feat]` in
+   `__getitem__`; a (grand)child of the root observes what the root
+   observes, and the cycle cut happens in the root parent. *)
+Definition run_flat_h (c : world * fmt * nat * nat) : list (list Z) :=
+  let '(c', hier) := c in run_flat c'.
